@@ -4,6 +4,15 @@ NOTES = ("Technique: machine-checked proof in Lean 4 about a hand-written execut
          "correspondence run on every check (DESIGN.md). fix: commits in /repo are listed in known_findings.json.")
 NOT_APPLICABLE = {}
 CHECKS = {
+    "C19": {
+        "text": ("Lean theorems (unbounded): the chunked listing buffer flattens to the concatenation of its frames for every chunk capacity and frame size "
+                 "(buffer_flatten); with the repaired counter every registered id is the entry's position in the full STAT sequence for every stream "
+                 "(ids_are_stat_indices), the unrepaired code only for streams without the listing name (…_partial, ids_shifted_witness). Correspondence: real "
+                 "metadata-only transfers (sources containing the listing name, multi-chunk listings, stats > 32 KiB, prior listing files/symlinks) vs the "
+                 "byte-level Lean model: REQ ids, decoded listing file, destination = selected entries + needed ancestors (C01 spec on the projected view)."),
+        "note": ("Trusted: Lean kernel + standard axioms; the listing is decoded in the harness with the generic protobuf runtime (falling back to the library "
+                 "codec for non-UTF-8 names, which the generic runtime refuses — see C20); the bridge component-level id theorem -> byte-level model is by correspondence."),
+    },
     "C04": {
         "text": ("Lean theorems (unbounded, safety part): the receiver can send FIN / report success only after the end marker and the terminator of every "
                  "needed id (fin_only_if_complete, any event sequence, i.e. any fault point); convergence holds from every valid prior destination, hence from "
